@@ -622,6 +622,38 @@ def run_c01(F, R):
         R.ob('R5', v.name, clean, 'inner views are used only through View::update / View::last', v.file)
         if len(up.input_children) >= 2:
             Presence(v, R, up.input_children).run()
+    # R6: an inner view is observed and driven only from View::update / View::last: constructors and every other inherent
+    # method must not call View::update / View::last at all (a wrapper whose initial state depends on its child's current
+    # output is not the stand-alone wrapper of the decomposition)
+    n_other = 0
+    for v in F.views:
+        if not v.children_fields():
+            continue
+        for f in F.fns_of(v.adt_path):
+            if f.derived or f is v.update or f is v.last:
+                continue
+            n_other += 1
+            bad = [n for n in walk(f.body) if is_view_update(n) or is_view_last(n)]
+            R.ob('R6', '%s::%s' % (v.name, f.name), not bad,
+                 'no View::update / View::last call outside the View impl' if not bad else
+                 '%s calls %s on a view at %s: the wrapper observes or drives its inner view outside update()/last()' % (
+                     f.name, callee_name(bad[0]), loc(bad[0])), loc(bad[0]) if bad else f.file)
+    # last() must not drive anything (it cannot through &self unless a child is cloned first)
+    for v in F.views:
+        if v.last is None:
+            continue
+        bad = [n for n in walk(v.last.body) if is_view_update(n)]
+        if bad:
+            R.violation('R6', v.name + '::last:update-call', 'View::update is called inside last()', loc(bad[0]))
+    R.floor('R6', 30)
+    # the same inertness / no-raw clauses decided on the value graph, which sees through reference aliases and helpers
+    from .e_typed_props import inert_none_path
+    from .e_window import no_raw_in_state
+    wrappers = [v.name for v in F.views if v.children_fields() and len(v.children_fields()) >= 1]
+    inert_none_path(F, R, wrappers, 'R3v')
+    no_raw_in_state(F, R, wrappers, 'R2v')
+    R.floor('R3v', 30)
+    R.floor('R2v', 30)
     R.floor('R1', 40)
     R.floor('R1-internal', 5)
     R.floor('R2', 36)
